@@ -1,19 +1,27 @@
 #!/bin/bash
-# tools_seeds_all.sh: re-run the property's check on every stored seeded change (applied in a scratch worktree under /tmp, never in /repo).
-# Prints one line per seed; exit 1 if any seed is no longer detected.
+# tools_seeds_all.sh: re-run the property's check on every stored seeded change (applied in scratch worktrees under /tmp,
+# never in /repo; 6 worktrees in parallel). Prints one line per seed; exit 1 if any seed is no longer detected.
 set -u
 export GOFLAGS=-mod=mod GOPROXY=off
-WT=/tmp/wt-seedcheck-$$
-git -C /repo worktree add -q --detach "$WT" HEAD || exit 2
-trap 'git -C /repo worktree remove --force "$WT" >/dev/null 2>&1' EXIT
-miss=0; n=0
-for d in /verif/seeded/*/; do
-  id=$(basename "$d"); prop=$(jq -r .property "$d/meta.json")
-  n=$((n+1))
-  if ! git -C "$WT" apply "$d/patch.diff" 2>/dev/null; then echo "$id $prop: PATCH-DOES-NOT-APPLY"; miss=$((miss+1)); continue; fi
-  out=$(/verif/bin/crdcheck -p "$prop" -repo "$WT" -noevidence 2>&1 | grep '^FINDING' | sed 's/.*rule=\([A-Z0-9-]*\).*/\1/' | sort -u | tr '\n' ',')
-  git -C "$WT" checkout -q -- . ; git -C "$WT" clean -fdq
-  if [ -z "$out" ]; then echo "$id $prop: MISSED"; miss=$((miss+1)); else echo "$id $prop: $out"; fi
-done
+J=6
+worker() {
+  k=$1; WT=/tmp/wt-seedcheck-$$-$k
+  git -C /repo worktree add -q --detach "$WT" HEAD || exit 2
+  i=0
+  for d in /verif/seeded/*/; do
+    i=$((i+1)); [ $((i % J)) -eq $k ] || continue
+    id=$(basename "$d"); prop=$(jq -r .property "$d/meta.json")
+    if ! git -C "$WT" apply "$d/patch.diff" 2>/dev/null; then echo "$id $prop: PATCH-DOES-NOT-APPLY"; continue; fi
+    out=$(/verif/bin/crdcheck -p "$prop" -repo "$WT" -noevidence 2>&1 | grep '^FINDING' | sed 's/.*rule=\([A-Z0-9-]*\).*/\1/' | sort -u | tr '\n' ',')
+    git -C "$WT" checkout -q -- . ; git -C "$WT" clean -fdq
+    if [ -z "$out" ]; then echo "$id $prop: MISSED"; else echo "$id $prop: $out"; fi
+  done
+  git -C /repo worktree remove --force "$WT" >/dev/null 2>&1
+}
+for k in $(seq 0 $((J-1))); do worker $k > /tmp/seedcheck-$$-$k.out & done
+wait
+cat /tmp/seedcheck-$$-*.out | sort > /tmp/seedcheck-$$.all; rm -f /tmp/seedcheck-$$-*.out
+cat /tmp/seedcheck-$$.all
+n=$(wc -l < /tmp/seedcheck-$$.all); miss=$(grep -c -E ": MISSED|PATCH-DOES-NOT-APPLY" /tmp/seedcheck-$$.all); rm -f /tmp/seedcheck-$$.all
 echo "$n seeded changes, $miss not detected"
-[ $miss -eq 0 ]
+[ "$miss" -eq 0 ]
